@@ -112,7 +112,7 @@ function borrowComputer(m, call) {
     if (!r) return set;
     const addParam = (outer, args, ent) => {
       if (!ent) return;
-      if (outer && out(outer, r)) set.add(ent);
+      if (outer && outer !== "static" && out(outer, r)) set.add(ent);
       args.forEach((y, j) => { if (y !== "static" && out(y, r)) for (const e of ent.slots[j] || []) set.add(e); });
     };
     const addStruct = (sname, actualArgs, value) => {
@@ -121,7 +121,7 @@ function borrowComputer(m, call) {
       sdef.fields.forEach((f, fi) => {
         const fv = value ? value[fi] : null;
         if (!fv) return;
-        if (f.kind === "slice") { if (out(sub(f.lt), r)) set.add(fv); }
+        if (f.kind === "slice") { if (sub(f.lt) !== "static" && out(sub(f.lt), r)) set.add(fv); }
         else if (f.kind === "struct") addStruct(f.ty, f.args.map(sub), fv);
         else addParam(sub(f.lt), f.args.map(sub), fv);
       });
